@@ -60,6 +60,7 @@ def _case(draw):
         spec["dt"] = 0.01
         spec["nsteps"] = draw(st.integers(40, 60))
         spec["solver"] = draw(st.sampled_from(["Rattle", "Rattle", "ScipyIVP", "DualStormerVerlet"]))
+        spec["l_ref"] = draw(st.sampled_from([0.0, None]))
     elif kind == "scene":
         spec["scene"] = draw(dynbuild.scene(max_spheres=2))
         spec["solver"] = draw(st.sampled_from(["Rattle", "BackwardEuler", "Moreau"]))
@@ -70,6 +71,10 @@ def _case(draw):
         spec["d"] = draw(gen.f(0.1, 3))
         spec["v"] = [draw(gen.f(-1, 1)) for _ in range(3)]
         spec["solver"] = draw(st.sampled_from(["Rattle", "BackwardEuler", "Moreau", "ScipyIVP"]))
+        # reference lengths given explicitly or left to the default (length in the initial configuration); initial
+        # position given as a float array or, as scripts often do, as an integer-typed array
+        spec["l_ref"] = draw(st.sampled_from([1.0, None]))
+        spec["int_q0"] = draw(st.booleans())
     return spec
 
 
@@ -99,10 +104,11 @@ def build_system(spec):
         system.add(rb)
         joint = sysbuild.make_joint(js, system.origin, rb)
         system.add(joint)
-        system.add(sysbuild.make_force_law({"type": "Spring", "k": spec["k"], "l_ref": 0.0, "compliance": False}, joint))
+        system.add(sysbuild.make_force_law({"type": "Spring", "k": spec["k"], "l_ref": spec.get("l_ref", 0.0), "compliance": False}, joint))
         info = {"two_moving": False, "contact": False, "revolute": joint}
     else:
-        pm = PointMass(1.0, q0=np.array([1.0, 0.3, -0.2]), u0=np.array(spec["v"], dtype=float), name="pm")
+        q0 = np.array([1, 0, 0]) if spec.get("int_q0") else np.array([1.0, 0.3, -0.2])
+        pm = PointMass(1.0, q0=q0, u0=np.array(spec["v"], dtype=float), name="pm")
         system.add(pm)
         system.add(Force(np.array([0.0, 0.0, -9.81]), pm, name="gravity"))
         for i, a in enumerate([[0.0, 0.0, 0.0], [2.0, 1.0, 1.0]]):
@@ -111,7 +117,7 @@ def build_system(spec):
             tpi = sysbuild.make_tpi({"B1": [0.0] * 3, "B2": [0.0] * 3, "name": f"tpi{i}"}, fr, pm)
             system.add(tpi)
             el = sysbuild.make_force_law({"type": spec["law"] if i == 0 else "Spring", "k": spec["k"], "d": spec["d"],
-                                          "l_ref": 1.0, "compliance": spec["compliance"]}, tpi)
+                                          "l_ref": spec.get("l_ref", 1.0), "compliance": spec["compliance"]}, tpi)
             el.name = f"law{i}"
             system.add(el)
         info = {"two_moving": False, "contact": False}
